@@ -120,6 +120,7 @@ type Gen struct {
 	topKey    string
 	cloTab    map[string]*Closure // Fn-sort term → closure
 	sfAxioms  []sfAxiom           // definitional axioms of quantified spec functions
+	localProt []protectedLoc     // cells of non-escaping locals (kept across calls)
 	noopFns   map[string]bool     // Fn-sort terms known to have no program-visible effect (context cancel functions)
 	axiomsIn  map[string]bool
 	heapInit  map[string]Term
@@ -672,4 +673,20 @@ type sfAxiom struct {
 	trigs []string // other trigger substrings
 	text  string
 	light bool     // also part of the light proof attempt
+}
+
+// havocAllHeapsAtCall is havocAllHeaps for a call: the cells of locals whose address does
+// not escape keep their values (they are unreachable from the callee).
+func (g *Gen) havocAllHeapsAtCall(st *State) {
+	var saved []Term
+	for _, p := range g.localProt {
+		saved = append(saved, g.define("lp", g.load(st, p.loc, p.ty)))
+	}
+	g.havocAllHeaps(st)
+	for i, p := range g.localProt {
+		g.store(st, p.loc, p.ty, saved[i])
+	}
+	if len(g.localProt) > 0 {
+		g.trusted["locals whose address does not escape (go/ssa Alloc.Heap == false) keep their values across calls"] = true
+	}
 }
